@@ -1,7 +1,7 @@
 #!/usr/bin/env python3
 """refacall.py [tier]: run every archived behaviour-preserving refactoring (refactorings/<id>/patch.diff) through the
 check of its property (apply to /repo, ./check, restore).  Every line should say QUIET; exit 1 otherwise.
-NOTE: overwrites evidence/<Cnn>.json; re-run the checks on the clean tree afterwards."""
+(seedtest.py saves and restores evidence/<Cnn>.json around each run.)"""
 import json, os, subprocess, sys, glob
 tier = sys.argv[1] if len(sys.argv) > 1 else "quick"
 noisy = []
